@@ -7,7 +7,7 @@ func smoke() {
 	for _, bin := range []string{"v2", "top"} {
 		fs := fsFromFiles(files, nil)
 		for _, argv := range [][]string{{"a.json", "b.json"}, {"-f", "patch", "-o", "p", "a.json", "b.json"}, {"-p", "-f=patch", "p", "a.json"}, {"nope", "b.json"}, {"-zz"}, {"-v2=false", "a.json", "b.json"}, {"-version"}} {
-			r := runProc(fs, ProcSpec{Bin: bin, Argv: argv}, 64, nil)
+			r := runProc(fs, ProcSpec{Bin: bin, Argv: argv}, IOCfg{Sector: 64}, nil)
 			fmt.Printf("== %s %v -> code=%d crash=%q\nstdout=%q\nstderr=%q\n", bin, argv, r.Code, r.Crash, r.Stdout, r.Stderr)
 		}
 	}
